@@ -34,6 +34,9 @@ type world struct {
 	// System is then the LocationProvider that resolves parents, with its
 	// location cache and the cron hooks it installs.
 	engine *sys.System
+	// loadDesc: the storage hands back a location's records in descending
+	// instead of ascending key order (see orderedStore).
+	loadDesc bool
 	// strictEvents: a failing ProcessEvent is a violation whenever the model
 	// has a rule that certainly must be dispatched, even if the presence of
 	// other rules is unspecified at that moment (set by checks in whose
@@ -70,12 +73,37 @@ func quietControl() *core.Control {
 	return c
 }
 
+// orderedStore makes the order in which a storage hands back the records of
+// a location a property of the case: MemStorage returns them in Go's random
+// map order, which would make a case that reloads a location something else
+// than a pure function of its JSON.  Ascending by key (what a key-ordered
+// back end such as Bolt does) unless *desc.
+type orderedStore struct {
+	core.Storage
+	desc *bool
+}
+
+func (s *orderedStore) Load(ctx *core.Context, loc string) ([]core.Pair, error) {
+	pairs, err := s.Storage.Load(ctx, loc)
+	if err != nil {
+		return pairs, err
+	}
+	sort.SliceStable(pairs, func(i, j int) bool {
+		if *s.desc {
+			return string(pairs[i].K) > string(pairs[j].K)
+		}
+		return string(pairs[i].K) < string(pairs[j].K)
+	})
+	return pairs, nil
+}
+
 func newWorld(kind string, store core.Storage, o *vlib.Outcome) *world {
 	if store == nil {
 		store, _ = core.NewMemStorage(newCtx())
 	}
-	w := &world{kind: kind, store: store, locs: map[string]*core.Location{}, ctrl: quietControl(),
+	w := &world{kind: kind, locs: map[string]*core.Location{}, ctrl: quietControl(),
 		model: map[string]*mLoc{}, o: o}
+	w.store = &orderedStore{store, &w.loadDesc}
 	w.prov = core.NewSimpleLocationProvider(w.locs)
 	return w
 }
